@@ -159,6 +159,20 @@ mut("C17", "history-single-array", E + "Simulations/_phasefield.py", "        se
 mut("C09", "empty-load-modulo", E + "FEM/_boundary_conditions.py", "        if self.nodes.size == 0:\n            # a condition on no node (e.g. a load on nodes that bound no element) holds no dof\n            assert self.dofs.size == 0, \"dofs must be empty when nodes is empty\"\n        else:\n            assert (\n                self.dofs.size % self.nodes.size == 0\n            ), f\"dofs.size must be a multiple of {self.nodes.size}\"\n", "        assert (\n            self.dofs.size % self.nodes.size == 0\n        ), f\"dofs.size must be a multiple of {self.nodes.size}\"\n", "empty-selection")
 mut("C09", "empty-normals-concatenate", E + "FEM/_mesh.py", "        if len(list_normal) == 0:\n            # the nodes bound no boundary element\n            return np.zeros((0, 3), dtype=float), nodes\n", "", "empty-selection")
 same("C09", "empty-normals-empty", E + "FEM/_mesh.py", "            return np.zeros((0, 3), dtype=float), nodes\n", "            return np.empty((0, 3), dtype=float), nodes\n")
+same("C05", "scheme-setter-records-selection", E + "Simulations/_simu.py", "        self.__algo = algo\n        self.__hyperbolicParams = (dt, beta, gamma, alpha)\n", "        self.__algo = algo\n        self.__hyperbolicParams = (dt, beta, gamma, alpha)\n        self._lastSchemeSelected = str(algo)\n")
+same("C03", "structure-matrix-bool", E + "Simulations/_simu.py", "        matrix = sparse.csr_matrix((np.ones(rows.size), (rows, cols)), shape=shape)", "        matrix = sparse.csr_matrix((np.ones(rows.size, dtype=float), (rows, cols)), shape=shape)")
+same("C16", "active-guard-count-nonzero", E + "Simulations/_hyperelastic.py", "        if np.any(self.material.active_stress != 0.0):\n            S_e_pg = S_e_pg + self.material.Compute_active_stress(hyperElasticState)", "        if np.count_nonzero(self.material.active_stress) > 0:\n            S_e_pg = S_e_pg + self.material.Compute_active_stress(hyperElasticState)")
+same("C08", "mapping-sorted-unique", E + "FEM/_group_elem.py", "        for e in np.unique(elements_e):\n", "        for e in np.sort(np.unique(elements_e)):\n")
+same("C04", "lagrange-rows-descending", E + "Simulations/Solvers.py", "    values_Dirichlet = summed_values\n", "    values_Dirichlet = summed_values[::-1]\n    dofs_Dirichlet = dofs_Dirichlet[::-1]\n")
+mut("C05", "scheme-switch-resets-rates", E + "Simulations/_simu.py", "        # nothing is stored before the arguments are accepted\n        self.__algo = algo\n        self.__hyperbolicParams = (dt, beta, gamma, alpha)\n", "        if algo != self.__algo:\n            for pt, u_n in self.__dict_u_n.items():\n                self.__dict_v_n[pt] = np.zeros_like(u_n, dtype=float)\n        # nothing is stored before the arguments are accepted\n        self.__algo = algo\n        self.__hyperbolicParams = (dt, beta, gamma, alpha)\n", "R5.14")
+mut("C14", "mesh-indim-frozen", E + "FEM/_mesh.py", "        return max(groupElem.inDim for groupElem in self.__dict_groupElem.values())\n", "        if not hasattr(self, \"_inDim0\"):\n            self._inDim0 = max(groupElem.inDim for groupElem in self.__dict_groupElem.values())\n        return self._inDim0\n", "inDim")
+mut("C08", "mapping-given-order", E + "FEM/_group_elem.py", "        for e in np.unique(elements_e):\n", "        for e in elements_e:\n", "R8.19")
+mut("C20", "merge-no-closure", E + "FEM/_mesh.py", "                _, labels = connected_components(graph, directed=False)\n", "                labels = np.arange(N)\n                labels[pairs[:, 1]] = pairs[:, 0]\n                _, labels = np.unique(labels, return_inverse=True)\n", "R20.10")
+mut("C02", "invF-first-point", E + "FEM/_group_elem.py", "        invF_e_pg = FeArray.asfearray(Inv(F_e_pg))\n", "        invF_e_pg = FeArray.asfearray(np.repeat(Inv(F_e_pg[:, :1]), F_e_pg.shape[1], axis=1))\n", "R2.12")
+mut("C07", "weighted-jacobian-abs-product", E + "FEM/_group_elem.py", "        wJ_e_pg = np.asarray(jacobian_e_pg) * weight_pg\n", "        wJ_e_pg = np.abs(np.asarray(jacobian_e_pg) * weight_pg)\n", "R7.11")
+mut("C19", "flow-bound-before-step", E + "Models/InElastic/_behavior.py", "            u = self.__Bound(u - np.linalg.solve(J, r[..., None])[..., 0])\n", "            u = self.__Bound(u) - np.linalg.solve(J, r[..., None])[..., 0]\n", "R19.18")
+mut("C16", "stress-read-virgin-state", E + "Models/InElastic/_behavior.py", "        eps6_e_pg = self.Compute_strain_6d(eps_e_pg, z_e_pg, 0.0)\n        sig6_e_pg = self.Compute_sigma(eps6_e_pg, z_e_pg)\n        if self.dim == 3:", "        eps6_e_pg = self.Compute_strain_6d(eps_e_pg, None, 0.0)\n        sig6_e_pg = self.Compute_sigma(eps6_e_pg, z_e_pg)\n        if self.dim == 3:", "R16.16")
+mut("C13", "weakforms-skip-unused-forms", E + "Simulations/_weakforms.py", "        computeM = weakForms.computeM\n        if computeM is None:\n", "        computeM = weakForms.computeM\n        if computeM is None or self.algo not in AlgoType.Get_Hyperbolic_Types():\n", "R13.3")
 mut("C04", "lagrange-row-per-entry", E + "Simulations/Solvers.py", "    dofs_Dirichlet, inverse = np.unique(dofs_Dirichlet, return_inverse=True)\n    summed_values = np.zeros(dofs_Dirichlet.size, dtype=values_Dirichlet.dtype)\n    np.add.at(summed_values, inverse, values_Dirichlet)\n    values_Dirichlet = summed_values\n", "", "__Solver_2")
 mut("C04", "lagrange-last-value-wins", E + "Simulations/Solvers.py", "    np.add.at(summed_values, inverse, values_Dirichlet)\n", "    summed_values[inverse] = values_Dirichlet\n", "__Solver_2")
 mut("C04", "lagrange-dim-raw-count", E + "Simulations/_simu.py", "            nBc += np.unique(self.Bc_dofs_Dirichlet(problemType)).size", "            nBc += len(self.Bc_dofs_Dirichlet(problemType))", "_Bc_Lagrange_dim")
